@@ -22,9 +22,9 @@ try:
         r = subprocess.run(['./check', p, '--repo', wt, '--no-evidence', '--no-battery', '--findings-json', fj], cwd='/verif', capture_output=True, text=True)
         if r.returncode:
             rules = sorted({x['rule'] for x in json.load(open(fj)) if not x.get('known')}) if os.path.exists(fj) else ['ANALYSIS-ERROR']
+            checks[p] = {'exit': r.returncode, 'rules': rules}
         if os.path.exists(fj):
             os.remove(fj)
-            checks[p] = {'exit': r.returncode, 'rules': rules}
 finally:
     subprocess.run(['git', '-C', '/repo', 'worktree', 'remove', '--force', wt])
 assert before == 0 and after == 1, (before, after)
